@@ -29,6 +29,10 @@ def tasks(tier):
             ts.append(Task('verifHarness_C14_serial', [fails, second]))
             for udp in (0, 1):
                 ts.append(Task('verifHarness_C14_client', [udp, fails, second]))
+    for fails in (5, 6, 8):
+        ts.append(Task('verifHarness_C14_client', [0, fails, 0]))
+    for udp in (0, 1):
+        ts.append(Task('verifHarness_C14_server', [udp]))
     ts.append(Task('verifHarness_C14_terminated', []))
     for busy in (0, 1):
         ts.append(Task('verifHarness_C14_read_failure', [busy], {'x25_uf': True}))
@@ -39,7 +43,7 @@ def tasks(tier):
 
 
 def required_reach(tier):
-    return ['C14/T1', 'C14/T2s', 'C14/T2c', 'C14/T3', 'C14/L2']
+    return ['C14/T1', 'C14/T2s', 'C14/T2c', 'C14/T3', 'C14/T4', 'C14/L2']
 
 
 def bounds(tier):
@@ -47,6 +51,7 @@ def bounds(tier):
                             'non-decreasing; a failing Set*Deadline',
             'T2_reconnect': 'serial, TCP client and UDP client provide(): 0..3 consecutive failed attempts then a success, first and later '
                             'provide() calls; timers are treated as fired and their durations logged; closed endpoint',
+            'T4_server': 'TCP and UDP server provide(): two accepted peers then an accept error; idle, write and read timeouts symbolic', 'T2_long_outage': 'TCP client with 5, 6 and 8 failed attempts (virtual time: the reconnect waits add up past the 10 s connect timeout)',
             'T3_provider': 'scripted endpoint handing out 3 connections then terminating; one-at-a-time or not; channels reported done or not',
             'NOT DECIDED': 'that the close event carries the reader error and that an expired deadline ends the channel (both through '
                            'Channel.run, three goroutines); server endpoint Accept loop with real listeners; behaviour of real sockets'}
@@ -54,7 +59,7 @@ def bounds(tier):
 
 OUTSIDE = ['EventChannelClose.Error (Channel.run)', 'endpointServer / endpointBroadcast against real listeners', 'more than 3 consecutive failures']
 STUBS = ['time.Now: verifClockAt(d), arbitrary non-decreasing d; Time.Add/Equal real source (Sub/Equal on two clock instants by contract)',
-         'time.After: fired at once, duration logged', 'context.WithCancel/WithTimeout: Done channel + cancel',
+         'time.After: fired at once, duration logged', 'context.WithCancel: Done channel + cancel; WithTimeout: additionally done once the logged timer waits (virtual time) add up to the timeout',
          '(*net.Dialer).DialContext: outcome scripted by the harness', 'net.SplitHostPort on concrete text', 'serialOpenFunc replaced by the harness (package seam)']
 ASSUMPTIONS = ['go/ssa faithfully represents the compiled code', 'the gosym channel/select model is faithful for a single goroutine',
                'counterexamples of kernel harnesses are confirmed by concrete re-execution in the interpreter, not natively', 'z3 is sound']
